@@ -138,6 +138,9 @@ def run_check(prop, tier, runs=None, workers=16, seed=None, start=0, digests_out
 
     spec = REGISTRY[prop]
     engine = importlib.import_module(spec["module"])
+    from . import fs as _fs
+
+    _fs.sweep_stale_scratch()
     warm()
     if hasattr(engine, "warm"):
         engine.warm()
